@@ -2,7 +2,7 @@
 UNITS = ['budget', 'scalars', 'events', 'location', 'live', 'reader', 'snippet', 'quoting', 'typed', 'base64', 'crop', 'robotics', 'plain']
 
 GLOBAL_ASSUMPTIONS = [
-    'Verus 0.2026.09.13 and its bundled Z3 are sound; the extractor rewrite rules R0..R17 preserve meaning (DESIGN.md 3.2)',
+    'Verus 0.2026.09.13 and its bundled Z3 are sound; the extractor rewrite rules R0..R37 preserve meaning (DESIGN.md 3.2 and section 0)',
     'assumed contracts (external_body / assume_specification / axioms) listed in coverage.trusted_base',
     'derived Hash/Eq/Clone impls are lawful; SmallVec behaves as Vec and ahash sets as HashSet for the methods used',
     'no unsafe code in the crate (#![forbid(unsafe_code)], checked by rustc)',
